@@ -236,25 +236,26 @@ Definition dir_prefixes (d : bytes) : list bytes := prefixes_aux [] (split_slash
 (* os.MkdirAll: nothing to do when the path is a directory; an existing non-directory
    is an error; otherwise create the missing ancestors from the top.  A component that
    cannot be created but is a directory afterwards is fine. *)
-Fixpoint mkdir_chain (t : tree) (ps : list bytes) (perm : N) : option tree :=
+Fixpoint mkdir_chain (t : tree) (ps : list bytes) (perm : N) : tree * bool :=
   match ps with
-  | [] => Some t
+  | [] => (t, true)
   | p :: r =>
       match stat t p with
       | Some (NDir _) => mkdir_chain t r perm
-      | Some _ => None
+      | Some _ => (t, false)
       | None =>
           match mkdir1 t p perm with
           | Some t' => mkdir_chain t' r perm
-          | None => None
+          | None => (t, false)
           end
       end
   end.
-Definition mkdir_all (t : tree) (d : bytes) (perm : N) : option tree :=
+(* the tree afterwards (ancestors created before an error stay) and whether it succeeded *)
+Definition mkdir_all (t : tree) (d : bytes) (perm : N) : tree * bool :=
   match stat t d with
-  | Some (NDir _) => Some t
-  | Some _ => None
-  | None => if is_abs d then mkdir_chain t (dir_prefixes d) perm else None
+  | Some (NDir _) => (t, true)
+  | Some _ => (t, false)
+  | None => if is_abs d then mkdir_chain t (dir_prefixes d) perm else (t, false)
   end.
 
 (* os.Chmod (follows links) *)
